@@ -359,6 +359,39 @@ def _routes_inside_open_with(x, outside) -> str | None:
     return None
 
 
+def build_routed(d: Any) -> Any:
+    """build(d), with the children of every tag arriving by a public route chosen by the description itself:
+    constructor; append(*kids); extend(kids); insert(0, TagList(*kids)); insert(0, [kids]); one insert per
+    child from the back; insert(i, TagList(pair)) for chunks of two; children += kids.  All of them must give
+    the tag the constructor gives (C14), so every read-only property may be judged on the result."""
+    from htmltools import TagList
+    if d[0] != "G":
+        return build(d)
+    _, name, ws, attrs, kids = d
+    kb = [mk_child_text(x[1]) if x[0] == "T" else build_routed(x) for x in kids]
+    route = _pick("route" + repr(d)[:200]) % 8
+    o = Tag(name, *(kb if route == 0 else []), _add_ws=ws)
+    if route == 1 and kb:
+        o.append(*kb)
+    elif route == 2:
+        o.extend(kb)
+    elif route == 3 and kb:
+        o.insert(0, TagList(*kb))
+    elif route == 4:
+        o.insert(0, list(kb))
+    elif route == 5:
+        for x in reversed(kb):
+            o.insert(0, x)
+    elif route == 6:
+        for i in range(0, len(kb), 2):
+            o.insert(len(o.children), TagList(*kb[i:i + 2]))
+    elif route == 7:
+        o.children += kb
+    for key, (m, v) in attrs:
+        dict.__setitem__(o.attrs, key, mk_html(v) if m == "H" else mk_text(v))
+    return o
+
+
 def to_sx(d: Any, meta=lambda payload: []) -> Any:
     k = d[0]
     if k == "T":
